@@ -152,7 +152,8 @@ VARIANTS += [
     V2("c19-module-cache", "C19", [(C3, "def round_up(value):", "_CACHE = {}\n\n\ndef round_up(value):"), (C3, "        self.vector = vector\n        self.minor_version = None", "        _CACHE[vector] = 1\n        self.vector = vector\n        self.minor_version = None")], rule="C19.globals"),
     V2("c19-getcontext", "C19", [(C2, "from decimal import ROUND_HALF_UP", "from decimal import ROUND_HALF_UP, getcontext"), (C2, "    return value.quantize(D(\"0.1\"), rounding=ROUND_HALF_UP)", "    getcontext().prec = 10\n    return value.quantize(D(\"0.1\"), rounding=ROUND_HALF_UP)")], rule="C19.ambient"),
     V("c19-print-lib", "C19", C3, "        self.vector = vector\n        self.minor_version = None", "        print(vector)\n        self.vector = vector\n        self.minor_version = None", rule="C19.ambient.io"),
-    V("c19-class-attr", "C19", C2, 'class CVSS2(object):\n    """\n    Class to hold CVSS2 vector, parsed values, and all scores.\n    """\n', 'class CVSS2(object):\n    """\n    Class to hold CVSS2 vector, parsed values, and all scores.\n    """\n\n    seen = []\n', rule="C19.toplevel"),
+    V2("c19-class-attr", "C19", [(C2, 'class CVSS2(object):\n    """\n    Class to hold CVSS2 vector, parsed values, and all scores.\n    """\n', 'class CVSS2(object):\n    """\n    Class to hold CVSS2 vector, parsed values, and all scores.\n    """\n\n    seen = []\n'), (C2, "        self.vector = vector\n", "        self.vector = vector\n        self.seen.append(vector)\n")], rule="C19.toplevel"),
+    V("c19-class-attr-never-written-N", "C19", C2, 'class CVSS2(object):\n    """\n    Class to hold CVSS2 vector, parsed values, and all scores.\n    """\n', 'class CVSS2(object):\n    """\n    Class to hold CVSS2 vector, parsed values, and all scores.\n    """\n\n    seen = []\n', "silent"),
     V("c19-table-write", "C19", C3, "        self.vector = vector\n        self.minor_version = None", "        METRICS_VALUES[\"E\"][\"X\"] = D(\"1\")\n        self.vector = vector\n        self.minor_version = None", rule="C19.globals"),
     V("c19-quantize-no-mode", "C19", C2, 'return value.quantize(D("0.1"), rounding=ROUND_HALF_UP)', 'return value.quantize(D("0.1"))', rule="C19.rounding"),
     V("c19-set-return", "C19", PAR, "    return cvsss\n", "    return list(set(cvsss))\n", rule="C19.hashorder"),
@@ -194,9 +195,11 @@ VARIANTS += [
     V("c13-prefix-30-only", "C13", PAR, r"(?:CVSS:3\.\d/)?", r"(?:CVSS:3\.0/)?", rule="C13.complete.prefix"),
     V("c13-class-upper", "C13", PAR, "[A-Za-z:/]{26,}", "[A-Z:/]{26,}", rule="C13.complete.alphabet"),
     V("c13-capturing", "C13", PAR, r"(?:CVSS:3\.\d/)?", r"(CVSS:3\.\d/)?", rule="C13.sound.groups"),
-    V("c13-except-narrow", "C13", PAR, "except (CVSSError, KeyError):", "except KeyError:", rule="C13.total"),
-    V("c13-no-dedup", "C13", PAR, "            if cvss not in cvsss:\n                cvsss.append(cvss)", "            cvsss.append(cvss)", rule="C13.dedup"),
-    V("c13-strip-arg", "C13", PAR, "cvss = CVSS3(match)", "cvss = CVSS3(match.rstrip('/'))", rule="C13.sound.arg"),
+    V("c13-except-narrow", "C13", PAR, "except (CVSSError, KeyError):", "except KeyError:", rule="C13.sem.total"),
+    V("c13-no-dedup", "C13", PAR, "            if cvss not in cvsss:\n                cvsss.append(cvss)", "            cvsss.append(cvss)", rule="C13.sem.result"),
+    # a part of the match is still a substring of the text: the property holds (the idiom rule that demanded the untransformed match was stricter)
+    V("c13-strip-arg-N", "C13", PAR, "cvss = CVSS3(match)", "cvss = CVSS3(match.rstrip('/'))", "silent"),
+    V("c13-upper-arg", "C13", PAR, "cvss = CVSS3(match)", "cvss = CVSS3(match.upper())", rule="C13.sem"),
     V("c13-minlen-20-N", "C13", PAR, "[A-Za-z:/]{26,}", "[A-Za-z:/]{20,}", "silent"),
     # ---------------------------------------------------------------- C14
     V("c14-swap-pr", "C14", K3, '"PR": {"N": D("0.85"), "L": D("0.62"), "H": D("0.27")},', '"PR": {"N": D("0.85"), "L": D("0.27"), "H": D("0.62")},', rule="C14.weights"),
